@@ -12,6 +12,7 @@ SETUP = [
     "ob = K(1)", "al: A = 2",
     "hof = fn(g: fn(str) -> int) -> int {", "\treturn g(\"a\")", "}",
     "const fx = [1, \"a\"]",
+    "fl = 1.5", "by = 0b1", "bg = B1",
 ]
 CLASS = ["class K {", "\tv: int", "\tconstructor(self, v: int) {", "\t\tself.v = v", "\t}", "\tfn mm(self, a: int) -> int {",
          "\t\treturn a + self.v", "\t}", "}", "type A int"]
@@ -143,6 +144,22 @@ for _w in ["qq"] + grammar_words():
     for _pos, _tpl in NAME_POSITIONS.items():
         FAULTS[f"unknown-name:{_w}:{_pos}"] = [t.format(w=_w) for t in _tpl]
 
+
+# index with a non-index, systematically: every container kind x every expression kind that is not a valid index for it
+# (literal, variable, non-constant expression) x read / store / op-assignment
+IDX_EXPRS = {"float-var": "fl", "float-lit": "1.5", "float-expr": "fl + 0.5", "str-var": "s", "str-lit": '"a"', "bool-var": "b", "byte-var": "by",
+             "optional-var": "o", "list-var": "l", "fn-var": "f", "object-var": "ob", "int-var": "n", "bigint-var": "bg"}
+IDX_CONTAINERS = {"list": ("l", {"int-var", "bigint-var"}), "fixed-list": ("fx", {"int-var", "bigint-var"}), "str": ("s", {"int-var", "bigint-var"}),
+                  "map": ("m", {"str-var", "str-lit"})}
+for _cn, (_cv, _valid) in IDX_CONTAINERS.items():
+    for _in, _ie in IDX_EXPRS.items():
+        if _in in _valid or (_cn == "fixed-list" and _in in ("int-var", "bigint-var")):
+            continue
+        FAULTS[f"index:{_cn}:{_in}:read"] = [f"z1 = {_cv}[{_ie}]"]
+        if _cn in ("list", "map"):
+            FAULTS[f"index:{_cn}:{_in}:store"] = [f"{_cv}[{_ie}] = 1"]
+            FAULTS[f"index:{_cn}:{_in}:opassign"] = [f"{_cv}[{_ie}] += 1"]
+
 NEED_FN = {"break-outside-loop", "continue-outside-loop"}   # meaningless inside a loop host
 HOSTS = ["module", "fn", "closure", "method", "ctor", "elseif", "while", "from", "imported", "nested-block"]
 
@@ -209,7 +226,8 @@ class C03(Check):
     rule = ("every (host context in {module level, function body, closure body, class method, constructor, else-if arm, while body, from body, "
             "doubly nested block, imported module}) x (fault of a catalogue of 89 type-breaking edits plus the unknown-name family = {fresh identifier, every "
             "identifier-shaped word of grammar.pest} x 12 expression positions (print, operand, right operand, initialiser, callee, argument, list "
-            "element, condition, index, receiver, assert, last statement of a block): wrong-typed annotated initialiser, "
+            "element, condition, index, receiver, assert, last statement of a block) and the non-index family = 4 container kinds (open list, fixed list, str, map) x "
+            "13 index expressions of a wrong kind (literal, variable, non-constant expression) x read / store / op-assignment: wrong-typed annotated initialiser, "
             "re-assignment with another type (variable, field, list element, map value, op-assignment), wrong argument type / count (function, "
             "method, constructor, built-in), wrong / missing return value, non-boolean condition (if, else-if, while, assert, !, &&), unknown "
             "name / type / field / method, call of a non-callable, index of a non-indexable, non-index index, wrong map key type, operators on "
